@@ -75,6 +75,11 @@ static void handle(const char *op, struct arg *a, int n, FILE *out) {
 		int i;
 		msg = load(&a[0]);
 		if (msg == NULL) { fputs("ERR", out); return; }
+		/* reading the message (what conditions do before an action rewrites it) must not change what is written */
+		(void)message_get_header(msg, (const char *)a[1].p);
+		for (i = 2; i + 1 < n; i += 2)
+			(void)message_get_header(msg, (const char *)a[i].p);
+		(void)message_get_body(msg);
 		for (i = 2; i + 1 < n; i += 2)
 			message_set_header(msg, (const char *)a[i].p, strdup((const char *)a[i + 1].p));
 		o = write_mem(msg, &len);
@@ -119,9 +124,13 @@ static void handle(const char *op, struct arg *a, int n, FILE *out) {
 			if (b2 == NULL || strcmp(b, b2) != 0) fputs(" UNSTABLE", out);
 		}
 		message_free(msg);
+#ifndef HARNESS_NO_STATICS
+	/* ops that call a static function directly: compiled out (BADOP) when the function's signature changed and the harness
+	 * would not build otherwise (vlib.Scratch.unit_harness retries with -DHARNESS_NO_STATICS and reports the lost ops) */
 	} else if (strcmp(op, "unfold") == 0 && n == 1) {
 		char *u = unfoldheader((const char *)a[0].p);
 		puthex(out, u, strlen(u)); free(u);
+#endif
 	} else if (strcmp(op, "ctype") == 0 && n == 0) {
 		/* the ctype tables the model assumes */
 		int c;
